@@ -391,3 +391,55 @@ def h_immutable_header(max_size: int, version: int) -> bool:
     if sz != want:
         return "data length field is not min(max_size, 2^32-1)"
     return True
+
+
+# ---- container header recognition: truncated / corrupted headers are rejected ------------------------
+
+hlib.encoded(mutable_schema._Schema.magic_matches, mutable_schema.schema_from_header, mutable_schema._magic,
+             immutable_schema.schema_from_version)
+
+
+def h_mutable_magic(version: int, plen: int, flip: int, bit: int) -> bool:
+    """
+    pre: 1 <= version <= 2 and 0 <= plen <= 40 and -1 <= flip < 32 and 0 <= bit < 8
+    pre: (flip == -1 and bit == 0) or plen == 40
+    post: _ == True
+    """
+    # a valid mutable container header of the given version, cut to its first plen bytes and/or with one magic bit flipped
+    version, plen, flip, bit = _pin(version, 1, 2), _pin(plen, 0, 40), _pin(flip, -1, 31), _pin(bit, 0, 7)
+    schema = [s for s in mutable_schema.ALL_SCHEMAS if s.version == version][0]
+    header = schema.header(b"n" * 20, b"w" * 32)
+    if len(header) != 472:
+        return "initial mutable container is not 472 bytes"
+    data = header[:plen]
+    if 0 <= flip and flip < len(data):
+        data = data[:flip] + bytes([data[flip] ^ (1 << bit)]) + data[flip + 1:]
+        corrupted = True
+    else:
+        corrupted = False
+    got = mutable_schema.schema_from_header(data)
+    valid = (plen >= 32) and not corrupted          # the 32-byte magic must be present in full and intact
+    if valid:
+        if got is not schema:
+            return "a complete, intact magic was not recognised as its own version"
+    else:
+        if got is not None:
+            return "a truncated or corrupted mutable container header was accepted as a valid container"
+    for other in mutable_schema.ALL_SCHEMAS:
+        if other is not schema and other.magic_matches(data):
+            return "header matches the magic of another container version"
+    return True
+
+
+def h_immutable_version(version: int) -> bool:
+    """
+    pre: True
+    post: _ == True
+    """
+    got = immutable_schema.schema_from_version(version)
+    if version == 1 or version == 2:
+        if got is None or got.version != version:
+            return "known immutable container version not found"
+    elif got is not None:
+        return "unknown immutable container version accepted"
+    return True
